@@ -21,6 +21,7 @@ type Profile struct {
 	Rules       bool
 	Reload      bool
 	Cascade     bool
+	Fan         bool // most facts are dependents (deleteWith) of one of the first two ids; those are what gets removed
 	HostileQ    bool // ids and strings starting with "?"
 	Index       bool // rule patterns that share index prefixes; events instantiated from stored patterns
 	Cron        bool // mostly scheduled rules; ticks
@@ -87,7 +88,10 @@ func (g *Gen) Fact() map[string]interface{} {
 	for i, k := 0, 1+g.R.Intn(3); i < k; i++ {
 		m[g.pick(topKeys)] = g.value(2)
 	}
-	if g.P.Cascade && g.R.Intn(3) == 0 {
+	if g.P.Fan && g.R.Intn(3) > 0 {
+		// many dependents of few ids: fans (what a cascade that fails half-way needs)
+		m["deleteWith"] = []interface{}{g.P.Ids[g.R.Intn(2)]}
+	} else if g.P.Cascade && g.R.Intn(3) == 0 {
 		dw := []interface{}{}
 		perm := g.R.Perm(len(g.P.Ids))
 		for i, k := 0, 1+g.R.Intn(2); i < k && i < len(perm); i++ {
@@ -635,6 +639,9 @@ func (g *Gen) Next() Op {
 		}
 	case "RemFact", "GetFact", "RemRule", "GetRule":
 		op.Id = id
+		if g.P.Fan && op.Op == "RemFact" && g.R.Intn(4) > 0 {
+			op.Id = g.P.Ids[g.R.Intn(2)]
+		}
 	case "SearchFacts":
 		op.Val, op.Inh = g.Pattern(), g.P.Parents && g.R.Intn(2) == 0
 	case "AddRule":
